@@ -1,2 +1,88 @@
--- stub: replaced by the model driver of this property
-def main : IO Unit := pure ()
+import SdcModel.Basic.Io
+import SdcModel.Eventing
+open Sdc Sdc.Eventing
+
+/-!
+ops (one per line; strings = code points joined by `,`, the empty string is `e`):
+  `cfg <path|ref> <maxDur> <maxErr> <checkDialect 0|1>`                       -> `ok`   (also resets the state)
+  `sub <notifyTo> <endTo|-> <filter|none|-> <dialectOk 0|1> <expires|->`      -> `subscribed <id> <granted>` | `rejected`
+        filter = entries joined by `;`, `none` = no Filter element, `-` = no entry
+  `renew <ref|-> <path|-> <expires|->` | `status <ref|-> <path|->` | `unsub <ref|-> <path|->`
+                                                                              -> `remaining <r>` | `unsubscribed` | `fault`
+  `notify <action>` | `stop <0|1>`                                            -> `sent <n|e>:<sub>:<addr>:<outcome> …`
+  `tick <dt>` | `mode <addr> <outcome>` | `hk`                                -> `ok`
+-/
+
+namespace Sdc.Eventing
+
+def optNat? (w : String) : Option (Option Nat) :=
+  if w == "-" then some none else w.toNat?.map some
+
+def str? (w : String) : Option Str :=
+  if w == "e" then some [] else (w.splitOn ",").mapM String.toNat?
+
+def filter? (w : String) : Option (Option (List Str)) :=
+  if w == "none" then some none
+  else if w == "-" then some (some [])
+  else ((w.splitOn ";").mapM str?).map some
+
+def bool? (w : String) : Option Bool :=
+  if w == "1" then some true else if w == "0" then some false else none
+
+def outcome? : String → Option Outcome
+  | "ok" => some .ok | "httpError" => some .httpError | "refused" => some .refused
+  | "notConnected" => some .notConnected | "timeout" => some .timeout | _ => none
+
+def Outcome.str : Outcome → String
+  | .ok => "ok" | .httpError => "httpError" | .refused => "refused"
+  | .notConnected => "notConnected" | .timeout => "timeout"
+
+def Msg.str (m : Msg) : String :=
+  (match m.kind with | .notification _ => "n" | .subscriptionEnd => "e") ++ s!":{m.sub}:{m.addr}:{m.outcome.str}"
+
+def Out.str : Out → String
+  | .subscribed i g => s!"subscribed {i} {g}"
+  | .rejected => "rejected"
+  | .remaining r => s!"remaining {r}"
+  | .unsubscribed => "unsubscribed"
+  | .fault => "fault"
+  | .sent msgs => " ".intercalate ("sent" :: msgs.map Msg.str)
+  | .done => "ok"
+
+def parseOp (ws : List String) : Option Op :=
+  match ws with
+  | ["sub", nt, et, f, d, e] => do
+    pure (.subscribe (← nt.toNat?) (← optNat? et) (← filter? f) (← bool? d) (← optNat? e))
+  | ["renew", r, p, e] => do pure (.renew (← optNat? r, ← optNat? p) (← optNat? e))
+  | ["status", r, p] => do pure (.getStatus (← optNat? r, ← optNat? p))
+  | ["unsub", r, p] => do pure (.unsubscribe (← optNat? r, ← optNat? p))
+  | ["notify", a] => do pure (.notify (← str? a))
+  | ["tick", dt] => do pure (.tick (← dt.toNat?))
+  | ["mode", a, o] => do pure (.setOutcome (← a.toNat?) (← outcome? o))
+  | ["hk"] => some .housekeeping
+  | ["stop", b] => do pure (.stop (← bool? b))
+  | _ => none
+
+def parseCfg (ws : List String) : Option Cfg :=
+  match ws with
+  | [d, maxDur, maxErr, cd] => do
+    let disp ← (if d == "path" then some Dispatch.path else if d == "ref" then some Dispatch.ref else none)
+    pure ⟨disp.mkKey, ← maxDur.toNat?, ← maxErr.toNat?, ← bool? cd⟩
+  | _ => none
+
+end Sdc.Eventing
+
+def stepLine (cs : Cfg × State) (line : String) : (Cfg × State) × String :=
+  match Io.words line with
+  | "cfg" :: rest =>
+    match parseCfg rest with
+    | some c => ((c, init), "ok")
+    | none => (cs, "bad-op")
+  | ws =>
+    match parseOp ws with
+    | some op =>
+      let r := step cs.1 cs.2 op
+      ((cs.1, r.1), r.2.str)
+    | none => (cs, "bad-op")
+
+def main : IO Unit := Io.lineLoop stepLine (⟨Dispatch.path.mkKey, 720000, 1, true⟩, init)
